@@ -542,7 +542,14 @@ fn encode_args(
 
             if extra_arg.is_none() {
                 assert!(!first_normal_arg.expect_raw().is_reg, "checked above");
-                extra_arg = Some(first_normal_arg.expect_raw().expect_int() as _);
+                let value = first_normal_arg.expect_raw().expect_int();
+                if !(-0x8000..=0xFFFF).contains(&value) {
+                    return Err(emitter.emit(error!(
+                        message("argument does not fit"),
+                        primary(first_normal_arg, "{value} does not fit in a word-sized integer"),
+                    )));
+                }
+                extra_arg = Some(value as _);
             } else {
                 // Explicit @arg0, but also drawn from args.
                 // To keep the type checker's job simpler, we took an argument from the argument list anyways,
